@@ -142,17 +142,37 @@ HELPERS = [
     helper('ctl_fin', 'ctl_fin', r'^cocls::_details::generator_aggregator_controller<int, void>::fin\(\)$'),
     helper('ctl_bool', 'ctl_bool', r'^cocls::_details::generator_aggregator_controller<int, void>::operator bool\(\) const$'),
 ]
-UNITS = HELPERS + UNITS
+# ---- task B3: members tools/coverage.py listed in no unit
+# single_item_queue<promise<GenCallback*>> - the parked-consumer slot of the aggregator's completion queue (queue.h:66-93, a std::optional inside;
+# libstdc++'s optional is straight-line code without allocation and is translated as it is; promise's move constructor / destructor are abstract callees)
+def siq(name, alias, arg='void', uses=('pm_move', 'pm_dtor', 're_ctor'), **kw):
+    G, CB, N = VAR[arg]
+    PG = 'cocls::promise<%s*>' % CB
+    A = {'pm_move': '^' + esc(PG) + r'::promise\(' + esc(PG) + r'&&\)$', 'pm_dtor': '^' + esc(PG) + r'::~promise\(\)$', 're_ctor': r'^std::runtime_error::runtime_error\(char const\*\)$'}
+    d = dict(name=name + ('_arg' if arg == 'int' else ''), driver=DRV, roots=[N[alias]], names={alias: N[alias]}, names_opt={a: A[a] for a in uses}, boundary=[A[a] for a in uses],
+             types={}, ptypes={'SIQ': N[alias] + '#0'}, lib=['rt_core.c', 'rt_atomic_seq.c'], spec=['C14/q_spec.h'], harness='h_' + name, enforce=alias,
+             under_contract=[N[alias].lstrip('^').rstrip('$').replace('\\', '')], timeout=120)
+    d.update(kw)
+    return d
+def cbmove(arg):
+    G, CB, N = VAR[arg]
+    rx = '^' + esc(CB) + r'::GenCallback\(' + esc(CB) + r'&&\)$'
+    return dict(name='cb_move' + ('_arg' if arg == 'int' else ''), driver=DRV, roots=[rx], names={'cb_move': rx}, names_opt={}, boundary=[],
+                types={'GCB': CB, 'GEN': G, 'AWT': 'cocls::awaiter'}, lib=['rt_core.c', 'rt_atomic_seq.c'], spec=['C14/q_spec.h'], harness='h_cb_move', enforce='cb_move',
+                under_contract=[rx.lstrip('^').rstrip('$').replace('\\', '')], timeout=120)
+PARTS = [siq('si_ctor', 'si_ctor'), siq('si_dtor', 'si_dtor'), siq('si_empty', 'si_empty'), siq('si_emplace', 'si_emplace'), siq('si_front', 'si_front'), siq('si_pop', 'si_pop'),
+         cbmove('void'), cbmove('int')]
+UNITS = HELPERS + PARTS + UNITS
 
 META = dict(
     level='other',
-    level_text='BOUNDED, not a proof: the statement lives inside the coroutine body of generator_aggregator, which no contract reaches; it is decided by bounded symbolic execution of the really lowered generator_aggregator<int,void> / <int,int> coroutine (clang -O0 lowering, ir2c devirtualised resume) together with the real generator.h / queue.h / future.h / awaiter.h code, for 0..3 scripted SYNCHRONOUS sources of length <= 2 (lists of shapes per unit, see units[].bound; values symbolic in their low 24 bits, the top byte tags the yield they come from), sources may throw a symbolic exception after 0..2 values (one thrower with a consumer that stops at the exception; one, two or three throwers - each with a payload of its own - with a consumer that goes on after every exception), a source may have been stepped once by the consumer before it is handed over, consumer by next()/value() and by call-to-future, aggregate dropped after 0..4 values. Checked per shape: the consumer observes exactly the multiset union (every yielded value exactly once, nothing else), each source\'s values in that source\'s order, the end when and only when all sources have ended (one end indication), a source\'s exception loses no value of any source and is reported - PER SOURCE: the payload of every throwing source reaches the consumer exactly once, nothing else is reported (clause C14-FINDING-two-throwers; OPEN known finding, see level_note) -, after the last value / exception the aggregate is finished, says so and gives the consumer that goes on exactly one end indication (C13 after-exception clause seen through the aggregate; fails on the unchanged generator.h, repaired by specs/C13/fix_after_exception.diff), the first argument initialises every source and each later argument reaches the source whose value was returned last, dropping the aggregate before its first activation / while parked at a yield destroys every activated source\'s locals exactly once, allocations == deallocations (frames + the two vector buffers), ORDER of the destruction (clause "destroying the aggregate while parked WAITS for in-flight asynchronous sources", checked in every drive, decisive in drive_early_n2 / drive_early_n13 with >= 2 active sources; added for seeded change C14-1): at every wait of the aggregate for a source - every pop of its completion queue, in particular every pop of the drain in ~generator_aggregator_controller - no source coroutine frame of this aggregate has been destroyed yet (C14-ORDER-wait-before-destroy), and at the moment a source frame is destroyed no source\'s completion is still unconsumed in that queue (C14-ORDER-destroy-after-wait; with synchronous sources an asked source has reported at once, so "in flight" = "completion still queued"), once the aggregate is gone as many completions were taken as were put (source frames are counted by the heap model, every one seen created and destroyed exactly once), the aggregator never parks on queue.pop() with synchronous sources, the callback vector never reallocates. PROVED (contracts, unbounded) only for the helpers: the resume function of GenCallback pushes its own callback onto its own queue exactly once and resumes nobody; the GenCallback constructor wires queue / generator / that function; charge() asks the callback\'s own generator once with the callback as asker (argument installed first); ~generator_aggregator_controller performs exactly count-1 blocking pops of its queue for EVERY count (loop contract), fin() and operator bool keep the active-source counter.',
-    level_note='Not covered: asynchronous sources (a source suspended on another awaitable, completing on another thread or later on this thread), hence also "waits for in-flight asynchronous sources" beyond the controller contract and the ORDER obligations C14-ORDER-* (which pin WHEN the drain runs relative to the destruction of the sources, on synchronous sources whose completions are already queued - not that a blocking wait really blocks until another thread delivers), the single-consumer awaiter slot of cocls::queue, infinite sources, more than 3 sources or more than 2 values per source, value types other than int. OPEN KNOWN FINDING (audit E, D4; marker C14-FINDING-two-throwers, units drive_throw2_a / drive_throw2_b, native replay replay/c14_two_throwers.cpp two_throwers): the statement says "a source\'s exception ... is reported to the consumer" - for every source; the aggregator keeps ONE std::exception_ptr and overwrites it at every caught exception (`exp = std::current_exception();`), so with two or more throwing sources only the exception caught last is reported, the others vanish silently (the former oracle allowed at most one thrower - copied from the code). No small repair: a generator can hand over a single exception, at its end; reporting several needs a design decision (collect / nest them in one exception - which changes the type a consumer catches -, or another reporting channel); keeping the first instead of the last loses just as many. NOT COVERED (audit E, D5): a source that is already FINISHED (exhausted, or ended by an exception) when it is handed to the aggregator - outside the statement\'s scripted source generators, which are fresh (or, unit drive_prestep, parked at a yield). The aggregator mishandles it (auditor\'s native reproducer c14_scenarios exhausted_first / exhausted_last): charge() throws no_more_values_exception outside the try block of the loop; as the first source, ~generator_aggregator_controller then waits for ever for sources that were never charged (hang); as a later source the exception ends the aggregate at once and the values of the other sources are lost. Shapes are sampled, not exhaustive for n = 3. Trusted: models of std::vector (typed pool, no growth; real element constructors/destructors), std::queue<GenCallback*> (FIFO ring), single_item_queue (obligation: stays empty), std::mutex, std::deque of the ready queue, std::atomic<T*> members, typed frame allocation.',
+    level_text='BOUNDED, not a proof: the statement lives inside the coroutine body of generator_aggregator, which no contract reaches; it is decided by bounded symbolic execution of the really lowered generator_aggregator<int,void> / <int,int> coroutine (clang -O0 lowering, ir2c devirtualised resume) together with the real generator.h / queue.h / future.h / awaiter.h code, for 0..3 scripted SYNCHRONOUS sources of length <= 2 (lists of shapes per unit, see units[].bound; values symbolic in their low 24 bits, the top byte tags the yield they come from), sources may throw a symbolic exception after 0..2 values (one thrower with a consumer that stops at the exception; one, two or three throwers - each with a payload of its own - with a consumer that goes on after every exception), a source may have been stepped once by the consumer before it is handed over, consumer by next()/value() and by call-to-future, aggregate dropped after 0..4 values. Checked per shape: the consumer observes exactly the multiset union (every yielded value exactly once, nothing else), each source\'s values in that source\'s order, the end when and only when all sources have ended (one end indication), a source\'s exception loses no value of any source and is reported - PER SOURCE: the payload of every throwing source reaches the consumer exactly once, nothing else is reported (clause C14-FINDING-two-throwers; OPEN known finding, see level_note) -, after the last value / exception the aggregate is finished, says so and gives the consumer that goes on exactly one end indication (C13 after-exception clause seen through the aggregate; fails on the unchanged generator.h, repaired by specs/C13/fix_after_exception.diff), the first argument initialises every source and each later argument reaches the source whose value was returned last, dropping the aggregate before its first activation / while parked at a yield destroys every activated source\'s locals exactly once, allocations == deallocations (frames + the two vector buffers), ORDER of the destruction (clause "destroying the aggregate while parked WAITS for in-flight asynchronous sources", checked in every drive, decisive in drive_early_n2 / drive_early_n13 with >= 2 active sources; added for seeded change C14-1): at every wait of the aggregate for a source - every pop of its completion queue, in particular every pop of the drain in ~generator_aggregator_controller - no source coroutine frame of this aggregate has been destroyed yet (C14-ORDER-wait-before-destroy), and at the moment a source frame is destroyed no source\'s completion is still unconsumed in that queue (C14-ORDER-destroy-after-wait; with synchronous sources an asked source has reported at once, so "in flight" = "completion still queued"), once the aggregate is gone as many completions were taken as were put (source frames are counted by the heap model, every one seen created and destroyed exactly once), the aggregator never parks on queue.pop() with synchronous sources, the callback vector never reallocates. PROVED (contracts, unbounded) only for the helpers: the resume function of GenCallback pushes its own callback onto its own queue exactly once and resumes nobody; the GenCallback constructor wires queue / generator / that function; charge() asks the callback\'s own generator once with the callback as asker (argument installed first); ~generator_aggregator_controller performs exactly count-1 blocking pops of its queue for EVERY count (loop contract), fin() and operator bool keep the active-source counter; the parked-consumer slot primitives::single_item_queue<promise<GenCallback*>> (ctor, dtor, empty, emplace, front, pop over the real libstdc++ std::optional code): at most one promise, emplace on an empty slot takes the promise over, emplace on a FULL slot refuses by an exception and loses neither the parked promise nor the argument, pop / the destructor destroy exactly the parked promise exactly once; GenCallback(GenCallback&&) for <int,void> and <int,int>: a relocated callback keeps its wiring (queue, resume function, link) and takes the source over - exactly one owner.',
+    level_note='Not covered: asynchronous sources (a source suspended on another awaitable, completing on another thread or later on this thread), hence also "waits for in-flight asynchronous sources" beyond the controller contract and the ORDER obligations C14-ORDER-* (which pin WHEN the drain runs relative to the destruction of the sources, on synchronous sources whose completions are already queued - not that a blocking wait really blocks until another thread delivers), the single-consumer awaiter slot of cocls::queue, infinite sources, more than 3 sources or more than 2 values per source, value types other than int. OPEN KNOWN FINDING (audit E, D4; marker C14-FINDING-two-throwers, units drive_throw2_a / drive_throw2_b, native replay replay/c14_two_throwers.cpp two_throwers): the statement says "a source\'s exception ... is reported to the consumer" - for every source; the aggregator keeps ONE std::exception_ptr and overwrites it at every caught exception (`exp = std::current_exception();`), so with two or more throwing sources only the exception caught last is reported, the others vanish silently (the former oracle allowed at most one thrower - copied from the code). No small repair: a generator can hand over a single exception, at its end; reporting several needs a design decision (collect / nest them in one exception - which changes the type a consumer catches -, or another reporting channel); keeping the first instead of the last loses just as many. NOT COVERED (audit E, D5): a source that is already FINISHED (exhausted, or ended by an exception) when it is handed to the aggregator - outside the statement\'s scripted source generators, which are fresh (or, unit drive_prestep, parked at a yield). The aggregator mishandles it (auditor\'s native reproducer c14_scenarios exhausted_first / exhausted_last): charge() throws no_more_values_exception outside the try block of the loop; as the first source, ~generator_aggregator_controller then waits for ever for sources that were never charged (hang); as a later source the exception ends the aggregate at once and the values of the other sources are lost. Shapes are sampled, not exhaustive for n = 3. WHY STILL level \'other\' (task B3, item 4): the central step - "pop a callback, yield the value of exactly that callback\'s source, re-charge exactly that callback once" - is code of the coroutine BODY; after clang\'s lowering it is one region of generator_aggregator(...).resume between two suspend points, reachable only through the frame (suspend index, spilled locals gcb / g / cnt / queue / the pending future of queue.pop()). Its helpers are all under contract now (resume function = one push of the own pointer; charge = one subscribe of the own generator with the callback as asker; controller; the consumer slot; the relocation), but a history lemma over those contracts alone would have to restate the order in which the body calls them - a hand-written look-alike of the loop, which the method forbids - and a contract on the lowered .resume step (state "resumed at the pop await with callback X" -> "suspended at the yield with _ret == X\'s item, X not yet charged"; state "resumed at the yield" -> "X charged exactly once, one pop requested") needs a harness that builds the frame by its compiler-chosen layout plus abstract future / co_awaiter steps; it was not attempted in the time of this task. The bounded drives remain the only evidence for the top-level statement. OBSERVATION (GenCallback relocation): a callback that has been charge()d is registered by ADDRESS as the asker in its source\'s promise; the (defaulted) move constructor cannot re-register it, so relocating a charged callback would leave a dangling asker - the aggregator is safe only because cbs.reserve(list.size()) keeps std::vector\'s reallocation path dead (every drive checks that the callback vector never reallocates). Trusted: models of std::vector (typed pool, no growth; real element constructors/destructors), std::queue<GenCallback*> (FIFO ring), single_item_queue (obligation: stays empty), std::mutex, std::deque of the ready queue, std::atomic<T*> members, typed frame allocation.',
     technique='bounded symbolic execution with CBMC 6.11 (unwinding assertions, every shape run with a concrete control path) of driver scenarios over the C translation of the clang-lowered generator_aggregator coroutine and everything it calls; CBMC code contracts + one loop contract via goto-instrument --dfcc for the helper members',
     trusted_base=['std::vector<generator>, std::vector<GenCallback> = three pointers over a typed static pool, no reallocation (pinned elements: obligation), elements built and destroyed by the real translated functions (lib/model_vec_pool.c)',
                   'std::queue<GenCallback*> = bounded FIFO ring, accesses under the queue mutex (lib/model_ptrq_ring.c, lib/model_mutex.c; pop() restated in specs/C14/drive_models.h with the ORDER obligation); single_item_queue<promise<GenCallback*>> = always empty, parking is a failed obligation (specs/C14/drive_models.h)',
                   'std::atomic<T*> members read sequentially at member-function level (lib/model_atomic_ptr_api.c); std::deque<coroutine_handle<>> = FIFO ring (lib/model_dq_drive.c); operator new/delete with typed coroutine frames, source frames remembered and counted at allocation / release (lib/model_heap_frames_src.c = lib/model_heap_frames.c + that ghost)',
-                  'contract units: queue::push / queue::pop / future::wait / ~future / next_awt::subscribe / suspend_now as recording stubs (specs/C14/a_spec.h)'],
+                  'contract units: queue::push / queue::pop / future::wait / ~future / next_awt::subscribe / suspend_now as recording stubs (specs/C14/a_spec.h); single_item_queue units: promise<GenCallback*> move constructor (ownership of the future moves) and destructor (counted, owner recorded) and std::runtime_error\'s constructor as stubs, std::optional translated from libstdc++ as it is (specs/C14/q_spec.h)'],
     assumptions=['bounded: <= 3 synchronous sources, <= 2 values each, <= 3 throwing sources, <= 10 consumer steps; single thread; sampled shapes for 3 sources and for several throwers',
                  'observed values are attributed to yields by a tag in the top byte (low 24 bits symbolic)',
                  'ctl_dtor: the controller counter equals the number of active sources (that is the body\'s bookkeeping, exercised only by the drives)'],
